@@ -246,3 +246,91 @@ func repeatedAcquire(c *common.Ctx, r *common.Rand) error {
 	}
 	return nil
 }
+
+// releaseDuringCommit: the holder gives the lock up (the lock file is closed by another thread, the wrapper exits) while
+// one of its transactions is inside the commit. The commit either is forwarded and acknowledged, or fails; it is never
+// published on the holder alone.
+func releaseDuringCommit(c *common.Ctx, r *common.Rand) error {
+	dir, err := os.MkdirTemp(c.OutDir, "c13r-")
+	if err != nil {
+		return err
+	}
+	defer os.RemoveAll(dir)
+	clu := cluster.New(dir, 3*time.Second)
+	clu.Opts = func(name string, s *litefs.Store) {
+		s.HaltAcquireTimeout = 500 * time.Millisecond
+		s.HaltLockTTL = 5 * time.Minute
+		s.HaltLockMonitorInterval = time.Hour
+	}
+	defer clu.Close()
+	p, err := clu.Start("p", true)
+	if err != nil {
+		return err
+	}
+	if clu.WaitPrimary(5*time.Second) == nil {
+		return fmt.Errorf("no primary")
+	}
+	rn, err := clu.Start("r", false)
+	if err != nil {
+		return err
+	}
+	if err := commitOn(c, r, p, 2); err != nil {
+		return err
+	}
+	pt, pc := pos(p)
+	if !cluster.WaitPos(rn, dbName, pt, pc, 10*time.Second) {
+		return fmt.Errorf("replica did not catch up")
+	}
+	rdb := rn.Store.DB(dbName)
+	if _, err := rdb.AcquireRemoteHaltLock(context.Background(), 51); err != nil {
+		return fmt.Errorf("halt: %v", err)
+	}
+	released := make(chan struct{})
+	var once sync.Once
+	rdb.Now = func() time.Time {
+		// CommitJournal asks for the time after it has checked that the node may write and before it forwards
+		once.Do(func() {
+			go func() {
+				defer close(released)
+				_ = rdb.ReleaseRemoteHaltLock(context.Background(), 51)
+			}()
+			time.Sleep(80 * time.Millisecond)
+		})
+		return time.Now()
+	}
+	im, _ := lfs.ReadImage(filepath.Dir(rdb.DatabasePath()))
+	h := hist.NewOn(c, r.Fork(), hist.Config{PageSize: 512}, rn.Store, rn.Exits, dbName, im, uint64(rdb.Pos().TXID), false)
+	h.Pager.RollbackOnCommitError = true
+	committed := false
+	for tries := 0; tries < 300; tries++ {
+		st := h.GenStep()
+		if st.Op != "rtx" {
+			continue
+		}
+		st.Outcome, st.ToWAL, st.Spill = 0, false, 0
+		ob := h.Exec(st)
+		committed = ob.Captured && ob.Err == "" && ob.Panic == ""
+		break
+	}
+	select {
+	case <-released:
+	case <-time.After(5 * time.Second):
+	}
+	rdb.Now = time.Now
+	c.Evaluations++
+	c.Distinct("release-during-commit")
+	rep := map[string]any{"kind": "halt-release-during-commit", "commit_returned_success": committed}
+	rt, rc := pos(rn)
+	pt2, pc2 := pos(p)
+	if rt != pt2 || rc != pc2 {
+		if committed {
+			c.Violate("C13:release-during-commit:unacknowledged", fmt.Sprintf("the holder's commit returned success at (%d,%016x) while the lock was being given up; the primary is at (%d,%016x): the transaction was published on the holder alone", rt, rc, pt2, pc2), rep)
+		} else if rt > pt2 {
+			c.Violate("C13:release-during-commit:ahead", fmt.Sprintf("after a commit that failed during the release the holder is at (%d,%016x), ahead of the primary (%d,%016x)", rt, rc, pt2, pc2), rep)
+		}
+	}
+	if id := p.Store.DB(dbName).VerifHaltLockID(); id != 0 {
+		p.Store.DB(dbName).ReleaseHaltLock(context.Background(), id)
+	}
+	return nil
+}
